@@ -11,7 +11,8 @@ env    = {"sers":[[id,[rule]]], "extras":[[id,[rule]]]}
 in : {"kind":"validate","env","ser","msg":[[key,val]]}                 out: {"validate","mem","accepts":[[key,bool]]}
      {"kind":"logger","env","writes":[{"ser","msg","tb":bool}]}        out: {"failed","tracebacks","validateAll","check"}
      {"kind":"types","message_type","fields","action_type","start","success"}  out: allowExtra flags + field keys
-     {"kind":"test","test": {"body":o} | {"captured":t} | {"inner":[t,rest]}, "default":n}   out: {"seen","final","created"} -/
+     {"kind":"ops","env","ops":[{"write":{"ser","msg","tb"}} | "validate" | "reset" | "check"]}   out: {"results":[per validate/check],"failed","tracebacks","stored"}
+     {"kind":"test","test": {"body":o} | {"swaps":t} | {"captured":t} | {"inner":[t,rest]}, "default":n}   out: {"seen","final","created"} -/
 open Lean VM
 
 def parseCls (s : String) : Except String PyClass :=
@@ -183,6 +184,9 @@ partial def parseTest (j : Json) : Except String Test :=
     | "pass" => pure (.body .pass) | "fail" => pure (.body .fail) | "error" => pure (.body .error) | "skip" => pure (.body .skip)
     | s => throw s!"bad outcome {s}"
   | .error _ =>
+    match j.getObjVal? "swaps" with
+    | .ok t => do pure (.swaps (← parseTest t))
+    | .error _ =>
     match j.getObjVal? "captured" with
     | .ok t => do pure (.captured (← parseTest t))
     | .error _ => do
@@ -212,6 +216,21 @@ def runCase (j : Json) : Except String Json := do
     let l := ws.foldl (fun l w => l.write E w) ({} : MemLogger)
     pure (Json.mkObj [("failed", toJson l.failed), ("tracebacks", toJson l.tracebacks.length),
                       ("validateAll", resJ (validateAll E l.messages)), ("check", resJ (checkForErrors E l))])
+  | "ops" => do
+    let E ← (j.getObjVal? "env") >>= parseEnv
+    let ops ← (← (j.getObjVal? "ops") >>= (·.getArr?)).toList.mapM fun o => do
+      match o with
+      | .str "validate" => pure Op.validate
+      | .str "reset" => pure Op.reset
+      | .str "check" => pure Op.check
+      | _ => do
+        let w ← o.getObjVal? "write"
+        let ser ← (w.getObjVal? "ser") >>= parseSer
+        let m ← (w.getObjVal? "msg") >>= parseMsg
+        pure (Op.write { msg := m, ser, isTraceback := ← w.getObjValAs? Bool "tb" })
+    let r := MemLogger.run E {} ops
+    pure (Json.mkObj [("results", Json.arr (r.2.map resJ).toArray), ("failed", toJson r.1.failed),
+                      ("tracebacks", toJson r.1.tracebacks.length), ("stored", toJson r.1.messages.length)])
   | "types" => do
     let mt ← j.getObjValAs? String "message_type"
     let fields ← (j.getObjVal? "fields") >>= parseFields
